@@ -4,17 +4,20 @@
     [__build_or], [__build_and], [__get_list_for_crossing].
     Model file: executable definitions only.
 
-    [__order_clauses] returns [0] for And/Or, [c.c] for [Not(c)] and [c] for an
-    int.  [c.c] is an int only when the negation sits on a leaf; in
+    [__order_clauses] (after commit 94d9e8e of the repository) returns [0] for
+    And/Or, [c.c if isinstance(c.c, int) else 0] for [Not(c)] and [c] for an
+    int: the key is always an int ([key_of] returns an [NVar]).  In
     [__apply_demorgan] the list [map Not input_list] is sorted *before* the
-    negations are pushed down, so the keys can be namedtuples, which Python
-    compares as plain tuples (lexicographically, lists likewise) and which
-    cannot be ordered against an int (TypeError).  [py_eq]/[py_lt] model
-    Python's [==]/[<] on such values, [pysort] models CPython 3.12's
-    [list.sort] for lists shorter than 64 (one [count_run] followed by binary
-    insertion: the comparisons performed, hence the TypeError raised or not, are
-    exactly those), and for any length when all keys are ints (any stable sort
-    gives the same list). *)
+    negations are pushed down, so [Not] over a compound formula does reach the
+    key function; it sorts like a compound formula (key 0).  (Before the repair
+    the key of such a member was the compound formula itself, a namedtuple, and
+    [list.sort] raised TypeError comparing it with an int.)
+    [py_eq]/[py_lt] model Python's [==]/[<] on ints / namedtuples / lists
+    ([py_lt] is the comparison the sort performs on the keys; on two ints it
+    never raises), [pysort] models CPython 3.12's [list.sort]: one [count_run]
+    followed by binary insertion for lists shorter than 64 and, since all keys
+    are ints, the same list for any length (every stable sort returns the same
+    list). *)
 From Coq Require Import ZArith List Bool Arith.
 From SP Require Import Base.Sat Logic.Formula.
 Import ListNotations.
@@ -38,7 +41,8 @@ Fixpoint elim (f : fm) : nf :=
 Definition key_of (c : nf) : nf :=
   match c with
   | NAnd _ | NOr _ => NVar 0
-  | NNot x => x
+  | NNot (NVar z) => NVar z   (* c.c if isinstance(c.c, int) *)
+  | NNot _ => NVar 0          (* else 0 *)
   | NVar z => NVar z
   end.
 
